@@ -31,7 +31,7 @@ REQUIRED = ['class:consistent-truncation', 'live:connection-reset', 'inputs', 'c
 TIMEOUT = {'quick': 300, 'thorough': 2400}
 SOFT = {'quick': 35, 'thorough': 900}
 
-CFG = [('H', 'DINT', 8, None), ('G', 'INT', 4, '0x93/1/2'), ('S', 'SSTRING', 2, None)]
+CFG = [('H', 'DINT', 8, None), ('G', 'INT', 4, '0x93/1/2'), ('S', 'SSTRING', 2, None), ('B', 'SINT', 3, '0x93/1/3')]
 
 
 def shards(tier):
@@ -89,6 +89,12 @@ def consistent_truncations(session=77):
             # as first member of a bundle whose table is consistent with the shortened member
             body = struct.pack('<HHH', 2, 6, 6 + len(part)) + part + good
             out.append(rc.rr_frame(rc.enc_unconnected_send(bytes([0x0A, 0x02, 0x20, 0x02, 0x24, 0x01]) + body), session, b'CTRUNM%02d' % (cut % 100)))
+    # attribute data a byte or an element too long or too short (for a single-byte type one stray byte is one whole element)
+    for att, exact, size in ((2, 8, 2), (3, 3, 1)):
+        for ln in (exact - 1, exact + 1, exact + size, exact * 2, 0):
+            cip = rc.enc_request({'path': {'segment': [{'class': 0x93}, {'instance': 1}, {'attribute': att}]}, 'set_attribute_single': {'data': [(5 * j + 3) % 256 for j in range(ln)]}})
+            out.append(rc.rr_frame(rc.enc_unconnected_send(cip), session, b'ATTRSZ%02d' % ln))
+            out.append(rc.rr_frame(cip, session, b'ATTRSB%02d' % ln))
     return out
 
 
@@ -292,7 +298,7 @@ def in_process(ctx, rng, budget_s):
                 ctx.count('state-changed-with-acknowledged-write')
                 known = list(after['H'])
             # values must still be representable (no corruption of the stored list shape)
-            if len(after['H']) != 8 or len(after['G']) != 4:
+            if len(after['H']) != 8 or len(after['G']) != 4 or len(after['B']) != 3:
                 ctx.violation('tag-shape-corrupted', 'tag lengths after %s input: %r' % (label, {k_: len(v) for k_, v in after.items() if isinstance(v, list)}), wit)
                 return
             for who, a in (('long-lived', long_lived), ('fresh', ('10.3.%d.%d' % (k // 250 % 250, k % 250), 30000 + k % 20000))):
